@@ -1,5 +1,5 @@
 // instantiation driver (no logic): the storage path behind UnitFilter::add / UnitFilterBlocked::add / SlipFilter::add,
-// i.e. the "set element" operator of the sparse vectors the filters keep their entries in (rule C06.store-growth).
+// i.e. the "set element" operator of the sparse vectors the filters keep their entries in (rule C06.store-growth), and the permute() path (rule C06.permute-convention).
 #include <kernel/lafem/sparse_vector.hpp>
 #include <kernel/lafem/sparse_vector_blocked.hpp>
 #include <kernel/lafem/unit_filter.hpp>
@@ -19,4 +19,9 @@ void c06_storage_driver()
   sf2.add(Index(1), Tiny::Vector<double, 2>(1.0));
   LAFEM::SlipFilter<double, Index, 3> sf3(Index(8), Index(8));
   sf3.add(Index(1), Tiny::Vector<double, 3>(1.0));
+  // renumbering: the permute() members of the filters and the sparse-vector permute() they forward to (rule C06.permute-convention)
+  Adjacency::Permutation perm(Index(8));
+  uf.permute(perm);
+  ub2.permute(perm);
+  ub3.permute(perm);
 }
